@@ -163,7 +163,7 @@ type world struct {
 func newWorld(viaOptions [][2]string) *world {
 	w := &world{store: ebu.NewMemoryStore(), reg: &registry{ups: map[string][]*mup{}}, fp: &failPlan{}}
 	worlds++
-	w.handlerMode = worlds % 3 // the error handler is given: 0 by option before the upcasters, 1 by option after them, 2 by the setter before every replay (replacing the one before)
+	w.handlerMode = worlds % 4 // the error handler is given: 0 by option before the upcasters, 1 by option after them, 2 by the setter before every replay (replacing the one before), 3 explicitly as nil (an optional configuration field left unset): failures are then simply not reported
 	opts := []ebu.Option{ebu.WithStore(w.store)}
 	if w.paged = worlds%2 == 0; w.paged {
 		// the bus sees the store through a decorator without the optional interfaces: replays page
@@ -182,10 +182,15 @@ func newWorld(viaOptions [][2]string) *world {
 		w.reg.ups[e[0]] = append(w.reg.ups[e[0]], &mup{from: e[0], to: e[1], label: label, f: f})
 		w.optLabels = append(w.optLabels, label)
 	}
-	if w.handlerMode != 0 {
+	if w.handlerMode == 3 {
+		opts = append(opts, ebu.WithUpcastErrorHandler(nil))
+	} else if w.handlerMode != 0 {
 		opts = append(opts, ebu.WithUpcastErrorHandler(w.handler()))
 	}
 	w.bus = ebu.New(opts...)
+	if w.handlerMode == 3 && worlds%8 == 7 {
+		w.bus.SetUpcastErrorHandler(nil)
+	}
 	return w
 }
 
@@ -383,6 +388,9 @@ func (w *world) replayCheck(run *vk.Run, log []stored, witness map[string]any, p
 	}
 	if w.stale != 0 {
 		viol("error-handler-calls", fmt.Sprintf("%d failures were reported to an upcast error handler that SetUpcastErrorHandler had replaced", w.stale))
+	}
+	if w.handlerMode == 3 {
+		wantErrs = nil // no handler: nothing to report to
 	}
 	if fmt.Sprint(w.errs) != fmt.Sprint(wantErrs) {
 		viol("error-handler-calls", fmt.Sprintf("upcast error handler calls %v, expected exactly %v (one per failing application, with the type and data of the failing step)", clipCalls(w.errs), clipCalls(wantErrs)))
